@@ -10,6 +10,7 @@ import argparse
 import json
 import os
 import random
+import re
 import shutil
 import subprocess
 import sys
@@ -44,8 +45,10 @@ def load_known():
             line = line.strip()
             if line.startswith('KNOWN-FINDING:'):
                 body = line[len('KNOWN-FINDING:'):].strip()
-                kv = dict(x.split('=', 1) for x in body.split(' :: ')[0].split() if '=' in x)
-                known.append({'property': kv.get('property'), 'key': kv.get('key'), 'text': body})
+                head = body.split(' :: ')[0]
+                m = re.match(r'property=(\S+)\s+key=(.*)$', head)
+                if m:
+                    known.append({'property': m.group(1), 'key': m.group(2).strip(), 'text': body})
             elif line.startswith('fixed:'):
                 fixed.append(line)
     return known, fixed
